@@ -151,6 +151,10 @@ def check_property(prop: str, tier: str, seed: int, only: str | None) -> int:
         what = viol.get("obligation") or viol.get("clause")
         print(f"VIOLATION property={prop} replay={path}{suffix}")
         print(f"  failed: {what}: {str(viol.get('detail', ''))[:400]}")
+    for item in ded.get("out_of_subset", []):
+        # a function under contract that the generator could not take this time: not a violation,
+        # but nothing is proved about it in this run (listed in the evidence as well)
+        print(f"UNDECIDED: property={prop} {str(item)[:300]}")
     for err in errors:
         print("CHECKER-ERROR:", err, file=sys.stderr)
 
